@@ -37,3 +37,20 @@ Theorem upload_abort_not_stored :
     sr_source false n fuel (sr_init (firstn k (writer_chunks cs ws)) true) = Some src ->
     exists e, res_out (set_run (store_fixed buf) order src) = Err e.
 Proof. intros cs ws k n fuel src buf order Hn Hs. eapply grpc_abort_never_stored; eauto. Qed.
+
+(* the same content through both clients: an inline SetReader whose reader yields the pieces ws, and an external
+   Create/SetReader that writes the same pieces, store the same bytes whenever both are stored - whatever the chunk
+   size, the server's buffer length, the fault plans and root orders on either side *)
+Theorem same_content_both_clients :
+  forall cs (ws : list (list RW.byte)) n fuel src buf1 order1 r1 c1 buf2 order2 r2 c2,
+    1 <= cs -> 0 < n ->
+    res_out (set_run (store_fixed buf1) order1 (map Data ws)) = Stored r1 c1 ->
+    sr_source false n fuel (sr_init (writer_chunks cs ws) false) = Some src ->
+    res_out (set_run (store_fixed buf2) order2 src) = Stored r2 c2 ->
+    c1 = c2.
+Proof.
+  intros cs ws n fuel src buf1 order1 r1 c1 buf2 order2 r2 c2 Hcs Hn H1 Hs H2.
+  rewrite (upload_stores_concat _ _ _ _ _ _ _ _ _ Hcs Hn Hs H2).
+  destruct (set_run_exact (store_fixed buf1) order1 (map Data ws) _ _ (or_introl eq_refl) H1) as [Hc _].
+  rewrite Hc. unfold src_bytes. clear. induction ws as [|w ws IH]; simpl; [reflexivity|]. rewrite IH. reflexivity.
+Qed.
